@@ -96,11 +96,14 @@ func (s *SDJWTBuilderV5) createDisclosuresAndDigestsInternal(
 	ignorePrimitives bool,
 ) ([]*DisclosureEntity, map[string]interface{}, error) {
 	digestsMap := map[string]interface{}{}
-	finalSDDigest, err := createDecoyDisclosures(opts)
+	decoyDisclosures, err := createDecoyDisclosures(opts)
 
 	if err != nil {
 		return nil, nil, fmt.Errorf("failed to create decoy disclosures: %w", err)
 	}
+
+	// Disclosures of this level. The decoys only contribute digests: they are not disclosures a holder can present.
+	var finalSDDigest []*DisclosureEntity
 
 	var allDisclosures []*DisclosureEntity
 
@@ -221,7 +224,7 @@ func (s *SDJWTBuilderV5) createDisclosuresAndDigestsInternal(
 		}
 	}
 
-	digests, err := createDigests(finalSDDigest, opts)
+	digests, err := createDigests(append(append([]*DisclosureEntity{}, finalSDDigest...), decoyDisclosures...), opts)
 
 	if err != nil {
 		return nil, nil, err
